@@ -13,6 +13,66 @@ sys.path.insert(0, HERE)
 from common import Result, lake_build, regenerate  # noqa: E402
 
 
+def generic_replay(prop, path, no_build=False):
+    """Re-execute the input of a replay file against the current tree: the program (and options) it records is
+    compiled again and compared as in the check; exit 1 with a VIOLATION line if it still fails, 0 if it no longer
+    does. A replay without a program (a broken proof obligation) re-runs the proof audit of the property."""
+    import json
+    d = json.load(open(path))
+    res = Result(prop, "quick")
+    if not no_build:
+        regenerate()
+        ok, log = lake_build(("Model", "driver"))
+        if not ok:
+            print(log)
+            return 2
+    src = d.get("source") or d.get("joint")
+    opts = d.get("options") or {"optimize": True}
+    if not src:
+        mod = importlib.import_module(f"props.{prop.lower()}")
+        from common import prove
+        okp = prove(res, getattr(mod, "MODULE", ""), getattr(mod, "THEOREMS", []))
+        print("proof obligations:", "all discharged" if okp else f"NOT discharged: {res.proof_problems}")
+        if not okp:
+            print(f"VIOLATION property={prop} replay={path} no-failing-input-found")
+        return 0 if okp else 1
+    failed = False
+    if prop in ("C08", "C09", "C18", "C19"):
+        from layoutfam import run_geo
+        recs, geo, wfv, sem = run_geo([(src, dict(opts, want_geometry=True))], want_sem=False)
+        for r in recs:
+            if r["outcome"] != "ok":
+                print("compile outcome:", r["outcome"].get("message", "")[:300])
+                continue
+            g = geo.get(r["id"]) or {}
+            shown = {k: g.get(k) for k in ("overlaps", "bad_wires", "unpowered", "unpowered_off_grid", "unpowered_grid_hole",
+                                          "pole_components", "n_poles") if g.get(k)}
+            print("geometry of the printed blueprint:", json.dumps(shown)[:1500])
+            if g.get("overlaps") or g.get("bad_wires") or (g.get("unpowered") and prop == "C18"):
+                failed = True
+    else:
+        from sem import run_semantic
+        recs, infos, stats = run_semantic(res, [(src, opts)], count=60, extra_case={"steps": 24})
+        for r in recs:
+            if r["outcome"] != "ok":
+                print("compile outcome:", r["outcome"].get("message", "")[:300])
+        for i in infos:
+            v = i["verdict"] or {}
+            print("status:", i["status"], "proved for all inputs" if i.get("proved") else "")
+            for mm in (v.get("mismatches") or [])[:3] + ((v.get("history") or {}).get("mismatches") or [])[:3]:
+                print("  mismatch:", json.dumps(mm)[:600])
+            if i["status"] == "violation":
+                failed = True
+        for fid, k in res.known_hits.items():
+            print(f"KNOWN-FINDING: property={prop} {fid} {k['what']}")
+        failed = failed or bool(res.violations)
+    if failed:
+        print(f"VIOLATION property={prop} replay={path}")
+        return 1
+    print("the recorded input no longer fails on the current tree")
+    return 0
+
+
 def main():
     ap = argparse.ArgumentParser()
     ap.add_argument("prop")
@@ -24,7 +84,9 @@ def main():
     tier = "thorough" if a.tier.startswith("t") else "quick"
     mod = importlib.import_module(f"props.{prop.lower()}")
     if a.replay:
-        return mod.replay(a.replay)
+        if hasattr(mod, "replay"):
+            return mod.replay(a.replay)
+        return generic_replay(prop, a.replay, a.no_build)
     res = Result(prop, tier)
     if not a.no_build:
         gen_ok, gen_log = regenerate()
